@@ -246,8 +246,18 @@ def runOpts (b : Block) : Res :=
   let perm := ((field b "perm").getD []).map natOf
   let m2 := build (perm.map (fun i => opts.getD i .other))
   let c2 := if showBuilder "impl2" m2 = " ".intercalate impl2L then none else some "permuted_builder_differs_from_model"
+  -- a second function whose defaults share the first one's backing array must keep its own defaults
+  let impl3L := (b.lines.find? (fun l => l.head? = some "impl3")).getD []
+  let xopt := (b.lines.find? (fun l => l.head? = some "xopt")).map (fun l => parseOpt (l.drop 1))
+  let c3 : Option String := match xopt with
+    | some xo =>
+      if impl3L.isEmpty then none
+      else if showBuilder "impl3" (buildFor (opts.take k ++ [xo]) []) = " ".intercalate impl3L then none
+      else some s!"shared_defaults_model=[{noSpace (showBuilder "impl3" (buildFor (opts.take k ++ [xo]) []))}]_impl=[{noSpace (" ".intercalate impl3L)}]"
+    | none => none
   -- property
   let p : Option String :=
+    if c3.isSome ∧ !hasNil then some "defaults_of_one_function_changed_by_calling_another" else
     if hasNil then (if implL = ["impl", "nilarg"] then none else some s!"nil_option_not_reported_{noSpace implS}")
     else if implL.getD 1 "" ≠ "ok" then some s!"valid_options_rejected_{noSpace implS}"
     else
@@ -259,7 +269,7 @@ def runOpts (b : Block) : Res :=
         let keys := opts.flatMap optKeys
         if keys.Nodup ∧ sortK (parseDump impl2L) ≠ sortK got then some "permutation_of_distinct_keys_changed_the_maps"
         else none
-  { conform := c1.or c2, prop := p,
+  { conform := c1.or (c2.or c3), prop := p,
     stats := [s!"size={opts.length}", s!"class={if hasNil then "nil" else if (opts.flatMap optKeys).Nodup then "distinct" else "dups"}"] }
 
 /-! ### result (C17) -/
